@@ -31,7 +31,7 @@ PROPS = {
                 coq=['props/C04.vo'], side='clone', tags=[4],
                 streams=[('w1', 'S4', 50, 60), ('w2', 'S4', 25, 60)], configs=['dbg', 'rel'], need=['create', 'destroy', 'reg']),
     'C05': dict(title='Queries act on exactly the archetypes whose component set satisfies them',
-                coq=['props/C05.vo'], cfgprobe='cfg', tags=[5], macro=dict(cases=150, stress=False),
+                coq=['props/C05.vo'], cfgprobe='cfg', xcrate=True, tags=[5], macro=dict(cases=150, stress=False),
                 streams=[('w1', 'S5', 20, 50), ('w2', 'S5', 10, 50)], configs=['dbg'], need=['find', 'iter']),
     'C06': dict(title='Iteration visits every matching live entity exactly once with its own data',
                 coq=['props/C06.vo'], tags=[6], fill=True,
@@ -83,7 +83,7 @@ PROPS['C15'] = dict(title='Archetype and component ids follow the discriminant r
                     coq=['props/C15.vo'], big=True, api=True, cfgprobe='rule', tags=[15], macro=dict(cases=200, stress=True),
                     streams=[('w2', 'H1', 10, 40)], configs=['dbg'], need=['conv'])
 PROPS['C16'] = dict(title='#[cfg]-disabled archetypes, components and query parameters behave as absent',
-                    coq=['props/C16.vo'], tags=[16], macro=dict(cases=200, stress=False), cfgprobe='cfg',
+                    coq=['props/C16.vo'], tags=[16], macro=dict(cases=200, stress=False), cfgprobe='cfg', xcrate=True,
                     streams=[], configs=['dbg'], need=[])
 
 THOROUGH_CONFIGS = ['dbg', 'rel', 'dbg-ev', 'dbg-wrap', 'dbg-all', 'rel-plain', 'rel-ev', 'rel-all']
